@@ -124,6 +124,8 @@ const (
 	EvEscaped               // a panic escaped ServeHTTP
 	EvRecEnter              // the built-in Recovery middleware was invoked (recorded by a wrapper around it)
 	EvRecExit               // ... and returned
+	EvRHMapped              // a request-scoped ReturnHandler was mapped
+	EvRHCall                // ... and was called to render a handler's return values
 	EvAttempt               // a handler is about to write to the response through the writer it was given; A=op
 )
 
@@ -138,7 +140,7 @@ type Ev struct {
 var evNames = map[uint8]string{
 	EvEnter: "enter", EvExit: "exit", EvPanicOut: "panic-out", EvNextCall: "next(", EvNextRet: ")next", EvNextPanic: ")next!panic",
 	EvSwallow: "swallow", EvSpyHeader: "W.status", EvSpyHeader2: "W.status-again", EvSpyWrite: "W.body", EvSpyFlush: "W.flush",
-	EvSpyRefuse: "W.refuse", EvCancel: "cancel", EvNote: "note", EvBefore: "before", EvRaise: "raise", EvRet: "ret", EvFS: "fs", EvEscaped: "ESCAPED", EvAttempt: "attempt", EvRecEnter: "Recovery(", EvRecExit: ")Recovery",
+	EvSpyRefuse: "W.refuse", EvCancel: "cancel", EvNote: "note", EvBefore: "before", EvRaise: "raise", EvRet: "ret", EvFS: "fs", EvEscaped: "ESCAPED", EvAttempt: "attempt", EvRHMapped: "rh-mapped", EvRHCall: "rh-call", EvRecEnter: "Recovery(", EvRecExit: ")Recovery",
 }
 
 func itoa(i int) string {
@@ -208,6 +210,7 @@ const (
 	OpSeeNamer     // resolve the Namer interface (implemented only by the application service) and note it
 	OpHTTPError    // answer with http.Error through the handed-out writer
 	OpHijack       // try to hijack the connection through the handed-out writer (the spy does not support it)
+	OpCopy         // io.Copy(w, plain reader): takes the writer's ReadFrom fast path if it has one
 	OpSetCT        // set a Content-Type before anything is written
 	OpSetCL        // announce a Content-Length the handler may never honour
 	OpExpireCtx    // install a derived context whose deadline has already passed (context.DeadlineExceeded, no timer)
@@ -272,6 +275,7 @@ type Req struct {
 	ETagOf        *Req // take If-None-Match from the ETag this earlier request of the same task was answered with
 	Flusher       bool
 	Hijacker      int   // underlying writer facet: 0 no http.Hijacker, 1 a Hijacker whose Hijack fails
+	ReaderFrom    bool  // underlying writer facet: io.ReaderFrom (as net/http's response has)
 	Deadline      int64 // virtual ticks after start; 0 none
 	CtxErr        int   // what the request context reports once cancelled: 0 Canceled, 1 DeadlineExceeded, 2 a custom error
 	PlannedCancel int   // CancelAt as generated (Local.CancelAt is consumed during the run)
